@@ -407,11 +407,11 @@ class RenderContext:
         """Just like `Context.extend`, but keeps track of ForLoop objects too."""
         self.raise_for_loop_limit(forloop.length)
         self.loops.append(forloop)
-        with self.extend(namespace) as context:
-            try:
+        try:
+            with self.extend(namespace) as context:
                 yield context
-            finally:
-                self.loops.pop()
+        finally:
+            self.loops.pop()
 
     @contextmanager
     def loop_iterations(self, length: int) -> Iterator[RenderContext]:
